@@ -310,11 +310,15 @@ def run_custom(tier, shard, nshards, vseed, ctx, res, run_one, n_examples):
         if msgs:
             state["last"] = (case, msgs)
             raise AssertionError(msgs[0])
+    from hypothesis.errors import Flaky
     try:
         t()
-    except AssertionError:
+    except (AssertionError, Flaky) as e:
+        if not state.get("last"):
+            raise
         case, msgs = state["last"]
-        res["violations"].append(dict(case=case, messages=msgs[:5], origin="kind-sequence"))
+        res["violations"].append(dict(case=case, messages=msgs[:5], origin="kind-sequence" + (
+            " (not reproducible in isolation: depends on what ran earlier in the process)" if isinstance(e, Flaky) else "")))
         return
 
     class Pipelines(RuleBasedStateMachine):
@@ -375,6 +379,9 @@ def run_custom(tier, shard, nshards, vseed, ctx, res, run_one, n_examples):
                                                     database=None, report_multiple_bugs=False,
                                                     suppress_health_check=list(HealthCheck),
                                                     phases=[Phase.generate, Phase.shrink]))
-    except AssertionError:
+    except (AssertionError, Flaky) as e:
+        if not state.get("last"):
+            raise
         case, msgs = state["last"]
-        res["violations"].append(dict(case=case, messages=msgs[:5], origin="state-machine"))
+        res["violations"].append(dict(case=case, messages=msgs[:5], origin="state-machine" + (
+            " (not reproducible in isolation: depends on what ran earlier in the process)" if isinstance(e, Flaky) else "")))
